@@ -17,10 +17,10 @@ def save_record(pid, rec_path, rid):
             open(dest, 'w').write(l); break
     return dest
 
-def run_sat(pid, tier, seed, mcs, runs, module, nontrivial, assumptions, extra_core=None):
+def run_sat(pid, tier, seed, mcs, runs, module, nontrivial, assumptions, extra_core=None, real=False):
     t0 = time.time()
     thorough = tier == 'thorough'
-    V.build_harness()
+    V.build_harness(real=real)
     work = V.WORK + '/' + pid
     os.makedirs(work, exist_ok=True)
     states = transitions = 0
@@ -106,4 +106,22 @@ def c16(tier, seed):
         ['the bincode wire format itself is not modelled; state files are produced by ruler\'s own writer'],
         extra_core=[('core', 120, 1500)])
 
-CHECKS = {'C12': c12, 'C13': c13, 'C14': c14, 'C16': c16}
+def c19(tier, seed):
+    return run_sat('C19', tier, seed,
+        lambda th: [],
+        lambda th, s: [['serve', '--n', '40' if th else '4', '--seed', str(s), '--dir', V.WORK + '/realfs']],
+        'ServerTrace', lambda r: r.get('kind') in ('files', 'rules'),
+        ['ruler directories produced by the real binary with shell commands on the real file system', 'requests are legal HTTP/1.1 request lines (non-ASCII percent-encoded)',
+         'the harness decides the class of each request (well-formed hash, cached, recorded) with its own base-62 / bincode decoders'], real=True)
+
+def realfs_records(tier, seed):
+    """C10 on the real file system: returns (n records, violations)"""
+    thorough = tier == 'thorough'
+    path = V.WORK + '/C10/rec_realfs.ndjson'
+    os.makedirs(V.WORK + '/C10', exist_ok=True)
+    V.harness(['realfs', '--n', '400' if thorough else '30', '--seed', str(seed), '--dir', V.WORK + '/realfs', '--out', path])
+    v, n = judge('C10', 'RealFsTrace', path)
+    out = [(inv, rid, save_record('C10', path, rid)) for (inv, rid) in v]
+    return n, out
+
+CHECKS = {'C12': c12, 'C13': c13, 'C14': c14, 'C16': c16, 'C19': c19}
